@@ -1,5 +1,6 @@
 import LolHtml.Lemmas.TbNames
 import LolHtml.Lemmas.TbJoint3
+import LolHtml.Lemmas.TbJoint4
 /-!
 # C03 — lol-html's tree-builder simulator against the WHATWG tree construction stage
 
@@ -20,6 +21,12 @@ current (2025) `select` parsing, the standard's text (no html5ever deviation swi
   `frameset` — `Lemmas/TbBody*.lean`, `TbPhase*.lean`, `TbJoint3.lean`.)
 * `C03_tb_guard_sound_partial` (b): on the same class, every text-switching start tag the strict simulator
   accepts is acted upon by the standard's tree builder (never ignored): no silent divergence.
+* `C03_tb_text_feedback_exact` / `C03_tb_guard_sound_exact`: (a) and (b) for **all** HTML-namespace sequences,
+  `template` start tags included, up to the first token met in a state with `ColGroupInTemplate` (parser in
+  "in column group", current node not a `colgroup`) or `GuardSelectStale` (guard in a select state, parser back
+  in a mode before the body) — the states right before findings F31 / F32. `C03_tb_exclusions_need_template`:
+  without a `template` start tag neither predicate ever holds, so the `_partial` theorems are the exact ones
+  on template-free input. Proof: a second, template-aware invariant (`Lemmas/TbT0..6.lean`, `TbJoint4.lean`).
 * `C03_tb_text_feedback_statement` / `C03_tb_guard_sound_statement`: the statements for *all* HTML-namespace
   sequences; both are false, `C03_tb_col_in_template_counterexample`,
   `C03_tb_frameset_after_select_in_template_counterexample` are the witnesses (findings).
@@ -191,6 +198,85 @@ theorem C03_tb_guard_sound_statement_false : ¬ C03_tb_guard_sound_statement := 
   have := h Gen.Tags.cfg ([st .template, st .col, st .textarea].map evOf)
     (evs_ok _ (by decide)) (by decide) (st .textarea, .rcdata, .none) (by decide +kernel) .textarea false {} rfl (by decide)
   cases this
+
+/-! ### the exact form: all HTML-namespace sequences, up to the two finding shapes -/
+
+theorem jrel3_init : JRel3 cfgStd (Sim.new true) State.init .data false := jrel2_init.to3
+
+/-- **(a), exact.** For **every** token sequence in the HTML namespace (no `svg` / `math` start tag; `template`
+start tags allowed) with `TbEv.Ok`: at every token of the strict run, up to the first token that is met in a
+state where
+
+* `ColGroupInTemplate`: the standard's parser is in "in column group" and the current node is not a `colgroup`, or
+* `GuardSelectStale`: the guard is in a select state while the standard's parser is in a mode before the body,
+
+the switch lol-html makes is the switch the standard's tree builder makes, and it is the switch the standard
+attaches to the tag. (`jointX` = `joint` that also ends at such a token.) The two predicates are decidable
+functions of the pair (parser state, guard state); they are the states right before findings F31 and F32, and
+they cannot arise without a `template` start tag (`C03_tb_exclusions_need_template`). -/
+theorem C03_tb_text_feedback_exact (cfg : TagCfg) (evs : List TbEv)
+    (hok : ∀ ev ∈ evs, ev.Ok cfg) (hcls : ∀ ev ∈ evs, HtmlNs ev.tok) :
+    ∀ p ∈ jointX cfg cfgStd (Sim.new true) State.init .data evs, p.2.1 = p.2.2 ∧ p.2.1 = expSw cfgStd p.1 :=
+  joint_agree3 cfg evs _ _ _ _ jrel3_init hok hcls
+
+/-- **(b), exact.** On the same runs: a text-switching start tag the strict simulator accepts is acted upon by
+the standard's tree builder. -/
+theorem C03_tb_guard_sound_exact (cfg : TagCfg) (evs : List TbEv)
+    (hok : ∀ ev ∈ evs, ev.Ok cfg) (hcls : ∀ ev ∈ evs, HtmlNs ev.tok) :
+    ∀ p ∈ jointX cfg cfgStd (Sim.new true) State.init .data evs,
+      ∀ n sc a, p.1 = .start n sc a → switchOf cfgStd n ≠ .none → p.2.2 = switchOf cfgStd n := by
+  intro p hp n sc a hn _
+  have := C03_tb_text_feedback_exact cfg evs hok hcls p hp
+  rw [← this.1, this.2, hn]
+  rfl
+
+/-- Without a `template` start tag neither predicate ever holds: the run with the two extra stops is the plain
+run. (`C03_tb_text_feedback_partial` is the exact theorem read through this equation.) -/
+theorem C03_tb_exclusions_need_template (cfg : TagCfg) (evs : List TbEv)
+    (hok : ∀ ev ∈ evs, ev.Ok cfg) (hcls : ∀ ev ∈ evs, HtmlNoTemplate ev.tok) :
+    jointX cfg cfgStd (Sim.new true) State.init .data evs = joint cfg cfgStd (Sim.new true) State.init .data evs :=
+  jointX_eq_joint cfg evs _ _ _ jrel2_init hok hcls
+
+/-- (a) exact, for the generated tables and the 125 enumerated names -/
+theorem C03_tb_text_feedback_exact_gen (ts : List Token)
+    (hnamed : ∀ t ∈ ts, ∀ n, t.tagName? = some n → n.isOther = false) (hcls : ∀ t ∈ ts, HtmlNs t) :
+    ∀ p ∈ jointX Gen.Tags.cfg cfgStd (Sim.new true) State.init .data (ts.map evOf),
+      p.2.1 = p.2.2 ∧ p.2.1 = expSw cfgStd p.1 := by
+  apply C03_tb_text_feedback_exact
+  · exact evs_ok ts hnamed
+  · intro ev hev
+    obtain ⟨t, ht, rfl⟩ := List.mem_map.mp hev
+    have := hcls t ht
+    cases t <;> exact this
+
+/-- non-vacuity with templates: `<template><td><textarea></textarea></template><select><template><style>` —
+neither predicate ever holds; the run goes through nested template insertion modes and agrees on all 8
+tokens up to where the strict simulator refuses `style` (guard in `InTemplateInSelect`). -/
+example :
+    (jointX Gen.Tags.cfg cfgStd (Sim.new true) State.init .data
+      ([st .template, st .td, st .textarea, .end .textarea, .end .template, st .select, st .template,
+        st .style].map evOf)).map (fun p => (p.2.1, p.2.2)) =
+      [(.none, .none), (.none, .none), (.rcdata, .rcdata), (.none, .none), (.none, .none), (.none, .none),
+       (.none, .none)] := by
+  decide +kernel
+
+/-- necessity of `ColGroupInTemplate`: on `<template><col><textarea>` (F31) the exact run ends before the
+`textarea` — the state after `<col>` has the predicate — and that is the token on which the plain run
+disagrees (`C03_tb_col_in_template_counterexample`). -/
+example :
+    (jointX Gen.Tags.cfg cfgStd (Sim.new true) State.init .data ([st .template, st .col, st .textarea].map evOf)).length = 2 ∧
+    ColGroupInTemplate (run cfgStd State.init [st .template, st .col]).getLast!.st = true := by
+  decide +kernel
+
+/-- necessity of `GuardSelectStale`: on `<template><select></template><frameset><script>` (F32) the exact run
+ends before the `frameset` — after `</template>` the guard is still in `InSelect` while the parser is back in
+"in head" — and the plain run disagrees two tokens later
+(`C03_tb_frameset_after_select_in_template_counterexample`). -/
+example :
+    (jointX Gen.Tags.cfg cfgStd (Sim.new true) State.init .data
+      ([st .template, st .select, .end .template, st .frameset, st .script].map evOf)).length = 3 ∧
+    GuardSelectStale (run cfgStd State.init [st .template, st .select, .end .template]).getLast!.st .inSelect = true := by
+  decide +kernel
 
 /-! ### the pre-2025 `select` parsing ("in select", "in select in table") -/
 
